@@ -63,6 +63,22 @@ def object_claim(obj_type, shape, masked=False, identical=False, baseline=False,
     return claim
 
 
+def reapply_masked_claim(obj_type, shape, concrete_mask=None):
+    """re-applying the constraint with apply_fov_mask on keeps the amplitude; concrete_mask: a 0/1 mask, else every mask value
+    is a symbol in [0, 1]"""
+    def claim(I):
+        with I.patch_torch(omod):
+            kind = "real" if obj_type == "potential" else "complex"
+            obj = I.tensor("obj", shape, kind, lo=-3, hi=3)
+            mask = torch.tensor(concrete_mask, dtype=torch.float64) if concrete_mask is not None else I.tensor("mask", shape[1:], lo=0, hi=1)
+            ns = _ns(obj_type, shape[0], apply_fov_mask=True)
+            f = omod.ObjectConstraints.apply_hard_constraints
+            out = f(ns, obj.clone(), mask)
+            again = f(ns, out.clone(), mask)
+            return [Rel("reapplying_keeps_amplitude", _a2(again), _a2(out), ntol=1e-5)]
+    return claim
+
+
 KIND = ["real"]
 
 
@@ -142,6 +158,13 @@ def cases(tier):
     out.append(("object[potential;(2, 1, 2);baseline, mask with background, factor 0.5]",
                 object_claim("potential", (2, 1, 2), baseline=True, factor=0.5, concrete_mask=[[[1.0, 0.3]], [[0.9, 0.2]]]), L))
     for t in ("complex", "pure_phase", "potential"):
+        out.append((f"reapply[{t};(1, 2, 2);binary fov_mask]", reapply_masked_claim(t, (1, 2, 2), concrete_mask=[[1.0, 0.0], [1.0, 1.0]]), L))
+        # a field-of-view mask with values strictly between 0 and 1 (known finding for complex objects, see DESIGN §4); "amplitude"
+        # is read as |obj| of complex / pure-phase objects, so the clause is not asked of potential objects under such a mask
+        if t != "potential":
+            out.append((f"reapply[{t};(1, 1, 2);fractional fov_mask]", reapply_masked_claim(t, (1, 1, 2)),
+                        dict(L, key=f"reapplying_under_fractional_fov_mask:{t}")))
+    for t in ("complex", "pure_phase", "potential"):
         out.append((f"object[{t};(2, 1, 2);identical_slices]", object_claim(t, (2, 1, 2), identical=True), L))
         out.append((f"object[{t};(3, 1, 1);identical_slices]", object_claim(t, (3, 1, 1), identical=True), L))
     out.append(("orthogonalize[2 modes x 1x2]", ortho_claim((2, 1, 2)), L))
@@ -166,5 +189,5 @@ def run(check, tier):
     check.outside += ["3-5 probe modes and complex-valued modes for orthogonality (nlsat finishes for 2 real-valued modes x 2 pixels only)",
                       "the 'same multiset of mode intensities' clause (solver returns unknown)", "Gaussian/Butterworth filters",
                       "tomography object_models", "centre-of-mass probe constraint"]
-    decide_many(check, [(n, c, dict(o, key=n.split("[")[0])) for n, c, o in cases(tier)],
+    decide_many(check, [(n, c, dict(dict(key=n.split("[")[0]), **o)) for n, c, o in cases(tier)],
                 timeout_s=120 if tier == "quick" else 600, validate=1 if tier == "quick" else 3)
